@@ -249,7 +249,8 @@ def generate(tier, seed):
         tot = sum(counts)
         n = rng.choice([0, tot, tot + 1, rng.randint(0, tot)])
         yield "subsample", {"counts": counts, "n": n, "np_seed": seed * 7919 + i}, i < 50
-    unis = [([1] * 12, 5), ([10, 1, 5, 4], 7), ([3, 3, 3, 3, 3, 3], 9), ([50, 2, 2], 10), ([1, 20], 3), ([5, 5], 5), ([2, 9, 1, 8], 19), ([7], 3)]
+    unis = [([1] * 12, 5), ([10, 1, 5, 4], 7), ([3, 3, 3, 3, 3, 3], 9), ([50, 2, 2], 10), ([1, 20], 3), ([5, 5], 5), ([2, 9, 1, 8], 19), ([7], 3),
+            ([30, 30, 30, 30], 5), ([100, 100], 3), ([1] * 50, 3), ([60, 1, 60], 6)]
     for i, (counts, n) in enumerate(unis if not thorough else unis * 3):
         yield "uniform", {"counts": counts, "n": n, "runs": 400 if not thorough else 1500 * TS, "np_seed": seed * 31 + i}, True
     pools = [G.universe("AC", 4), G.universe("ACD", 3)]
